@@ -182,6 +182,9 @@ class Ledger(Process):
         if self.parameters.get('amount2'):
             # a second port wired to the accumulator's node: one returned update carries two parts for it
             schema['acc2'] = {'_default': 0, '_emit': True}
+        if self.parameters.get('blob'):
+            # a variable the scenario may fill with something that cannot be sent to a worker
+            schema['blob'] = {'_default': 0, '_updater': 'set'}
         if self.parameters.get('tvar'):
             # an emitted variable directly under the root that is called 'time' (an elapsed-time counter of the
             # model's own): the time key of a row is still the engine's global time
